@@ -241,8 +241,13 @@ def run(chk):
             before = (list(inc_obj) if kind == 'list' else set(inc_obj), list(exc_obj) if kind == 'list' else set(exc_obj))
             try:
                 mt = TC.match(q, include=inc_obj, exclude=exc_obj)
-                v = names_of(TC.valid(include=inc_obj, exclude=exc_obj))
+                res_ = TC.valid(include=inc_obj, exclude=exc_obj)
+                v = names_of(res_)
                 mt2 = HM.match(q, include=inc_obj, exclude=exc_obj)
+                # the result is the caller's own from now on: adding to it must not reach the arguments (checked below)
+                if isinstance(res_, set):
+                    res_.add(by_name[r.choice(names)])
+                    res_.add(by_name[r.choice(names)])
             except Exception as e:
                 mt = mt2 = v = 'err:' + type(e).__name__
             trail.append((op, c.name, q.name, inc_now, exc_now))
